@@ -277,7 +277,7 @@ class IsLinkable(Contract):
     agreement_runs = 0
 
     def cases(self, tier):
-        for variant in ("plain", "global_model", "two_model_dimensions", "two_global_dimensions", "single_dataset"):
+        for variant in ("plain", "global_model", "two_model_dimensions", "two_global_dimensions", "single_dataset", "other_group_has_another_global_dimension", "other_group_has_a_global_model"):
             yield {"variant": variant}
 
     def build(self, S, case):
@@ -293,8 +293,18 @@ class IsLinkable(Contract):
             kw["global_megacomplexes"] = {"gm1": ("g1",)}
         if v == "single_dataset":
             dss = dss[:1]
-        cfg = Cfg("linkable_" + v, tuple(dss), megacomplexes={"m1": (("s1", "s2"), False), "m2": (("s2", "s3"), False)}, groups={"default": (None, VP)}, **kw)
+        groups = {"default": (None, VP)}
+        if v.startswith("other_group"):
+            # dataset groups contribute independently: what another group's data look like does not decide this group's linking
+            gm = {"global_megacomplexes": ("gm1",)} if v.endswith("global_model") else {}
+            dss.append(DS("ds3", T, (5.0, 6.0), group="g2", **gm))
+            groups["g2"] = (False, VP)
+            if gm:
+                kw["global_megacomplexes"] = {"gm1": ("g1",)}
+        cfg = Cfg("linkable_" + v, tuple(dss), megacomplexes={"m1": (("s1", "s2"), False), "m2": (("s2", "s3"), False)}, groups=groups, **kw)
         b = harness.build(S, cfg)
+        if v == "other_group_has_another_global_dimension":
+            b.scheme.data["ds3"] = b.scheme.data["ds3"].rename({"spectral": "pixel"})
         if v == "two_model_dimensions":
             b.model.megacomplex["m2"].dimension = "spectral"
             d = b.scheme.data["ds2"]
@@ -322,7 +332,7 @@ class IsLinkable(Contract):
         if isinstance(out, Raised):
             yield "no_exception", False
             return
-        want = case["variant"] in ("plain", "single_dataset")
+        want = case["variant"] in ("plain", "single_dataset", "other_group_has_another_global_dimension", "other_group_has_a_global_model")
         yield "linkable_iff_no_global_model_one_model_dimension_one_global_dimension", out["linkable"] is want
         yield "auto_link_follows_is_linkable", out["linked"] is want
 
